@@ -83,9 +83,10 @@ def gen_fn_expr(rng, args, depth=2):
     return e
 
 
-def compile_named(name: str, e, arity: int, bad=False):
-    """real Python function with the given `__name__`; source registered with linecache"""
-    argn = [f"a{i}" for i in range(arity)]
+def compile_named(name: str, e, arity: int, bad=False, params=None):
+    """real Python function with the given `__name__`; source registered with linecache.  `params`: the names of the
+    function's own parameters (default a0, a1, ...) - strata let them coincide with model names at other positions"""
+    argn = list(params) if params else [f"a{i}" for i in range(arity)]
     body = fexpr.src_expr(e, argn)
     if bad == "loop":    # a statement kind fn_to_sympy does not know
         src = (f"def {name}({', '.join(argn)}):\n    acc = 0.0\n    for _i in range(1):\n"
@@ -111,6 +112,8 @@ def src_expr_x(e, argnames) -> str:
         return argnames[e[1]]
     if tag == "k":
         return e[1]
+    if tag == "m":          # ["m", "pi" | "e"]: a constant of the math module, written fully qualified
+        return f"math.{e[1]}"
     if tag == "c":
         q = Fraction(e[1])
         f = fexpr.to_float(q)
@@ -126,7 +129,7 @@ def inline_consts(e, consts: dict):
     """the same expression with module constants replaced by their values (what Lean / the spec see)"""
     if e[0] == "k":
         return ["c", str(consts[e[1]])]
-    if e[0] in ("a", "c"):
+    if e[0] in ("a", "c", "m"):
         return e
     return [e[0], *[inline_consts(x, consts) for x in e[1:]]]
 
@@ -153,6 +156,8 @@ def compile_in_module(name: str, src_e, arity: int, floats):
         src = "\n".join(lines + src_e.get("module_level", [])) + f"\n\n\ndef {name}({', '.join(argn)}):\n{body}\n"
     else:
         src = "\n".join(lines) + f"\n\n\ndef {name}({', '.join(argn)}):\n    return {src_expr_x(src_e, argn)}\n"
+    if "math." in src:
+        src = "import math\n" + src
     filename = f"<{modname}>"
     linecache.cache[filename] = (len(src), None, src.splitlines(True), filename)
     mod = types.ModuleType(modname)
@@ -174,14 +179,17 @@ class FnPool:
         arity = len(d["args"])
         name = d.get("name") or f"fn{next(self.auto)}"
         body = d.get("src") or d["e"]
-        key = (name, repr(body), arity, d.get("bad") or False)
+        params = d.get("params")
+        if d.get("src") or not params or len(params) != arity or len(set(params)) != arity:
+            params = None
+        key = (name, repr(body), arity, d.get("bad") or False, tuple(params or ()))
         if key not in self.by:
             if d.get("src"):
                 fn, mod = compile_in_module(name, d["src"]["e"], arity, d["src"]["floats"])
                 self.mods.append((mod, d["src"].get("floats2") or []))
                 self.by[key] = fn
             else:
-                self.by[key] = compile_named(name, d["e"], arity, d.get("bad") or False)
+                self.by[key] = compile_named(name, d["e"], arity, d.get("bad") or False, params)
         return self.by[key]
 
     def mutate(self):
@@ -395,6 +403,8 @@ def eval_rich(e, xs, guard=True):
         v = Fraction(xs[e[1]])
     elif tag == "c":
         v = Fraction(e[1])
+    elif tag == "m":
+        raise Inexact(e[1])
     elif tag == "neg":
         v = -eval_rich(e[1], xs, guard)
     else:
@@ -421,7 +431,7 @@ def eval_rich(e, xs, guard=True):
 def _rich_names(e, argnames, out):
     if e[0] == "a":
         out.add(argnames[e[1]])
-    elif e[0] not in ("c", "k"):
+    elif e[0] not in ("c", "k", "m"):
         for x in e[1:]:
             _rich_names(x, argnames, out)
     return out
@@ -442,6 +452,8 @@ def rich_classes(content) -> set:
             return sympy.Symbol(names[e[1]])
         if tag == "c":
             return sympy.Float(float(Fraction(e[1])))
+        if tag == "m":
+            return {"pi": sympy.pi, "e": sympy.E}[e[1]]
         if tag == "neg":
             return -sym(e[1], names)
         a, b = sym(e[1], names), sym(e[2], names)
@@ -449,7 +461,7 @@ def rich_classes(content) -> set:
                 "%": lambda: a % b, "**": lambda: a ** b}[tag]()
 
     def walk(e, names):
-        if e[0] in ("a", "c", "k"):
+        if e[0] in ("a", "c", "k", "m"):
             return
         if e[0] == "%":
             if _rich_names(e[1], names, set()) & _rich_names(e[2], names, set()):
@@ -470,6 +482,95 @@ def rich_classes(content) -> set:
 
 
 RICH_VALUES = (1, 2, 4, 8, Fraction(1, 2))     # every variable / parameter value of the wider-fragment strata
+
+
+def eval_float(e, xs) -> float:
+    """double value of an expression of the wider fragment with math constants (Python semantics)"""
+    import math
+
+    tag = e[0]
+    if tag == "a":
+        return float(xs[e[1]])
+    if tag == "c":
+        return float(Fraction(e[1]))
+    if tag == "m":
+        return {"pi": math.pi, "e": math.e}[e[1]]
+    if tag == "neg":
+        return -eval_float(e[1], xs)
+    a, b = eval_float(e[1], xs), eval_float(e[2], xs)
+    return {"+": lambda: a + b, "-": lambda: a - b, "*": lambda: a * b, "/": lambda: a / b, "%": lambda: a % b,
+            "**": lambda: a ** b}[tag]()
+
+
+def _mods(e):
+    if e[0] in ("a", "c", "k", "m"):
+        return
+    if e[0] == "%":
+        yield e
+    for x in e[1:]:
+        yield from _mods(x)
+
+
+def gen_math_expr(rng, arity):
+    """expressions in which a constant of the math module (math.pi, math.e) is a factor, a summand, a divisor, or - times
+    a number - the modulus of a remainder (`x % (2*math.pi)`), over arguments that are variables / parameters.  Values
+    are irrational, so the strata using these compare to a relative tolerance; a remainder is only kept when at every
+    argument tuple of RICH_VALUES the quotient stays 1e-6 away from an integer (no flip between the model and the
+    generated code) and the two operands of a remainder mention disjoint arguments."""
+    def M():
+        return ["m", rng.choice(["pi", "pi", "e"])]
+
+    def cM():
+        r = rng.random()
+        if r < 0.4:
+            return ["*", ["c", str(rng.choice([2, 3, "1/2"]))], M()]
+        if r < 0.6:
+            return ["*", M(), ["c", str(rng.choice([2, 4]))]]
+        if r < 0.75:
+            return ["/", M(), ["c", str(rng.choice([2, 4]))]]
+        return M()
+
+    def A(allowed):
+        a = ["a", rng.choice(allowed)]
+        r = rng.random()
+        if r < 0.3 and len(allowed) > 1:
+            return [rng.choice(["*", "+"]), a, ["a", rng.choice(allowed)]]
+        if r < 0.5:
+            return [rng.choice(["*", "+"]), a, ["c", str(rng.choice([2, 3, "1/2"]))]]
+        return a
+
+    for _ in range(60):
+        idx = list(range(arity))
+        kind = rng.choice(["factor", "summand", "divisor", "modulus", "modulus", "modulus-sum", "dividend"])
+        if kind == "factor":
+            e = ["*", A(idx), cM()] if rng.random() < 0.5 else ["*", cM(), A(idx)]
+        elif kind == "summand":
+            e = [rng.choice(["+", "-"]), A(idx), cM()]
+        elif kind == "divisor":
+            e = ["/", A(idx), cM()]
+        elif kind == "modulus":
+            e = ["%", A(idx), cM()]
+        elif kind == "modulus-sum":
+            e = ["+", ["%", ["*", A(idx), ["c", "3"]], cM()], ["c", "1"]]
+        else:
+            e = ["%", ["*", cM(), ["c", str(rng.choice([3, 5]))]], ["c", str(rng.choice([2, 4]))]]
+        used = _rich_names(e, [str(i) for i in range(arity)], set())
+        for i in range(arity):
+            if str(i) not in used:
+                e = [rng.choice(["+", "*"]), e, ["a", i]]
+        ok = True
+        try:
+            for xs in itertools.product(RICH_VALUES, repeat=arity):
+                eval_float(e, xs)
+                for m in _mods(e):
+                    q = eval_float(m[1], xs) / eval_float(m[2], xs)
+                    if abs(q - round(q)) < 1e-6:
+                        ok = False
+        except ZeroDivisionError:
+            ok = False
+        if ok:
+            return e
+    return ["*", ["a", 0], ["m", "pi"]]
 
 
 def gen_rich_expr(rng, arity, depth=3, share_mod=False):
@@ -533,7 +634,7 @@ def _gen_rich_expr(rng, arity, depth=3, share_mod=False):
     def collect(x):
         if x[0] == "a":
             used.add(x[1])
-        elif x[0] not in ("c", "k"):
+        elif x[0] not in ("c", "k", "m"):
             for y in x[1:]:
                 collect(y)
 
@@ -555,7 +656,7 @@ class Namer:
 
     @staticmethod
     def _body(d):
-        return {k: copy.deepcopy(d[k]) for k in ("e", "src", "e2", "rich") if k in d}
+        return {k: copy.deepcopy(d[k]) for k in ("e", "src", "e2", "rich", "params") if k in d}
 
     def __call__(self, rng, role, d):
         arity = len(d["args"])
@@ -566,7 +667,7 @@ class Namer:
             # share only if every model name passed still matters (f(x, p, x) may cancel x)
             if body.get("rich") or (depends_on_all_names(body["e"], d["args"])
                                     and ("e2" not in body or depends_on_all_names(body["e2"], d["args"]))):
-                for k in ("e", "src", "e2", "rich"):
+                for k in ("e", "src", "e2", "rich", "params"):
                     d.pop(k, None)
                 d.update(copy.deepcopy(body))
                 return name
@@ -608,7 +709,7 @@ def has_session(content) -> bool:
 
 def gen_content(rng, *, n_vars=(1, 4), n_pars=(0, 3), n_comps=(1, 7), p_ia_par=0.0, p_ia_var=0.0, p_time=0.15,
                 all_vars_have_eq=True, p_dyn_coef=0.3, shuffle=True, name_fn=None, p_dup_arg=0.0,
-                small=(1, 2, 3), p_modconst=0.0, rich=False):
+                small=(1, 2, 3), p_modconst=0.0, rich=False, p_param_names=0.0):
     """Random well-formed surrogate-free content (complete and acyclic by construction).
     `name_fn(rng, role) -> str | None` chooses function names (None = fresh unique name)."""
     nv = rng.randint(*n_vars)
@@ -647,13 +748,21 @@ def gen_content(rng, *, n_vars=(1, 4), n_pars=(0, 3), n_comps=(1, 7), p_ia_par=0
         if rich:   # wider fragment: arguments are variables / parameters only (see gen_rich_expr)
             args = [rng.choice(base_pool) for _ in args]
         d = {"args": args, "e": gen_fn_expr(rng, args, depth)}
+        if (p_param_names and not rich and rng.random() < p_param_names and "time" not in args
+                and len(set(args)) == len(args)):
+            # the function's own parameter names coincide with the model names it is called with, at other positions
+            # (rotated / reversed), or at the same positions when there is only one
+            d["params"] = ((args[1:] + args[:1]) if rng.random() < 0.6 else list(reversed(args))) if len(args) >= 2 else list(args)
         if rich:
             d["rich"] = True
             if rich == "cond":
                 d["src"] = {"e": gen_cond_src(rng, len(args)), "floats": []}
+            elif rich == "math":
+                d["src"] = {"e": gen_math_expr(rng, len(args)), "floats": []}
             else:
                 d["src"] = {"e": gen_rich_expr(rng, len(args), depth + 1), "floats": []}
         elif rng.random() < p_modconst:
+            d.pop("params", None)
             attach_module_consts(rng, d)
         if name_fn is not None:
             nm = name_fn(rng, role, d)
@@ -726,6 +835,7 @@ def features(content):
         "ia_par_used": bool(iap & used),
         "ia_var": any("ia" in v for _, v in content["vars"]),
         "var_without_eq": any(k not in have for k, _ in content["vars"]),
+        "no_eq": len(have) == 0 and len(content["vars"]) > 0,
         "one_var": len(content["vars"]) == 1,
         "dyn_coef": any("c" not in c for _, r in content["rxns"] for _, c in r["st"]),
     }
